@@ -19,6 +19,6 @@ echo "== patched tree: demo"
 cargo test -p "$CRATE" --offline -j 8 --test "$T" 2>&1 | grep -E '^test result|FAILED|panicked|error(\[|:)' | head -5
 echo "== patched tree: crate suite"
 rm -f "$DEST"
-cargo test -p "$CRATE" --offline -j 8 --no-fail-fast 2>&1 | grep -E '^test result: F|^test .* FAILED|^error' | sort | uniq -c | head -20
+timeout 2400 cargo test -p "$CRATE" --offline -j 8 --no-fail-fast 2>&1 | grep -E '^test result: F|^test .* FAILED|^error' | sort | uniq -c | head -20
 echo "== done"
-git checkout -q -- . && git clean -fdq -e target; rm -rf "$CARGO_TARGET_DIR"
+git checkout -q -- . && git clean -fdq -e target; [ -n "${KEEP_TARGET:-}" ] || rm -rf "$CARGO_TARGET_DIR"
